@@ -38,3 +38,16 @@ Definition both (cf : cmd * bool) : list (list (list N)) :=
   let (c, fault) := cf in
   let script := if fault then [AFault] else [] in
   [render (run_reply true script c); render (run_reply false script c)].
+
+(* rounds of concurrent commands: the machine of Driver/Commands.v (mode Private) on the lanes and
+   a schedule given by checks/c14.py.  Rows: [7000; caller; device] ++ request for every wire entry in arrival
+   order, then [7001; caller; verdicts...] per caller, then [7002; all callers finished?]. *)
+Definition conc_render (b : bool) (lanes : list (list job)) (sched : list nat) : list (list N) :=
+  let st := conc_exec Private b sched (conc_init lanes) in
+  let n := List.length lanes in
+  map (fun e => 7000 :: N.of_nat (fst e) :: fst (snd e) :: render_req (snd (snd e))) (c_wire st)
+  ++ map (fun i => 7001 :: N.of_nat i :: map (fun f : bool => if f then 1 else 0) (l_results (c_lanes st i))) (seq 0 n)
+  ++ [[7002; if conc_finished n st then 1 else 0]].
+Definition conc_both (r : list (list job) * list (list nat)) : list (list (list (list N))) :=
+  let (lanes, scheds) := r in
+  map (fun s => [conc_render true lanes s; conc_render false lanes s]) scheds.
